@@ -1623,3 +1623,119 @@ func validateTypeTestsZero(p *core.Program) bool {
 	})
 	return ok
 }
+
+// ---- C06.R12 an index found in a tail of a slice is relative to that tail ----
+
+// bytes.IndexByte(x[lo:], c) (and the other Index functions of bytes and strings) count from lo. Used as an index or
+// slice bound on x itself the result has to be added to lo; used on its own, the bound can lie in front of the
+// low bound (slice bounds out of range) or cut the data short.
+func c06r12(rc *core.RC) {
+	p := rc.P
+	n := 0
+	isIndexFn := func(name string) bool {
+		for _, pre := range []string{"bytes.Index", "strings.Index", "bytes.LastIndex", "strings.LastIndex"} {
+			if strings.HasPrefix(name, pre) {
+				return true
+			}
+		}
+		return false
+	}
+	for _, pk := range p.LibPkgs() {
+		for _, f := range pk.Syntax {
+			for _, d := range f.Decls {
+				fd, ok := d.(*ast.FuncDecl)
+				if !ok || fd.Body == nil {
+					continue
+				}
+				info := pk.TypesInfo
+				fn := p.FuncName(fd)
+				le := &core.LinearEval{Info: info, Pkg: pk, Body: fd.Body}
+				k := 0
+				ast.Inspect(fd.Body, func(m ast.Node) bool {
+					as, ok := m.(*ast.AssignStmt)
+					if !ok || len(as.Rhs) != 1 || len(as.Lhs) < 1 {
+						return true
+					}
+					c, isCall := core.Unparen(as.Rhs[0]).(*ast.CallExpr)
+					if !isCall || len(c.Args) < 1 || !isIndexFn(core.CalleeName(info, c)) {
+						return true
+					}
+					arg := core.Unparen(c.Args[0])
+					if id, isIdent := arg.(*ast.Ident); isIdent {
+						if def := core.ResolveSingleDef(info, fd.Body, id); def != nil {
+							arg = core.Unparen(def)
+						}
+					}
+					se, isSlice := arg.(*ast.SliceExpr)
+					if !isSlice || se.Low == nil {
+						return true
+					}
+					if v, isC := core.ConstInt(info, se.Low); isC && v == 0 {
+						return true
+					}
+					res := core.ObjOf(info, as.Lhs[0])
+					if res == nil {
+						return true
+					}
+					n++
+					rc.Touch(fn)
+					base := core.Src(p.Fset, se.X)
+					low := le.Eval(se.Low)
+					resLin := le.Eval(as.Lhs[0])
+					// every use of the result as an index or bound on the base itself
+					ast.Inspect(fd.Body, func(y ast.Node) bool {
+						var bx ast.Expr
+						var bounds []ast.Expr
+						switch u := y.(type) {
+						case *ast.IndexExpr:
+							bx, bounds = u.X, []ast.Expr{u.Index}
+						case *ast.SliceExpr:
+							bx, bounds = u.X, []ast.Expr{u.Low, u.High, u.Max}
+						default:
+							return true
+						}
+						if core.Src(p.Fset, bx) != base {
+							return true
+						}
+						for _, b := range bounds {
+							if b == nil {
+								continue
+							}
+							uses := false
+							ast.Inspect(b, func(z ast.Node) bool {
+								if id, isIdent := z.(*ast.Ident); isIdent && core.ObjOf(info, id) == res {
+									uses = true
+								}
+								return true
+							})
+							if !uses {
+								continue
+							}
+							k++
+							key := fmt.Sprintf("%s/relative-index#%d added-to-its-base", fn, k)
+							rest := le.Eval(b).Sub(resLin).Sub(low)
+							if rest.OK && len(nonzeroTerms(rest)) == 0 {
+								rc.OK(key, b.Pos(), "%s is used on %s as %s: the low bound of the searched tail is added", res.Name(), base, core.Src(p.Fset, b))
+							} else {
+								rc.Bad(key, b.Pos(), "%s is the position found in %s, counted from %s, but it bounds %s as `%s` without that offset: when the offset is larger than the position the slice bounds are out of range (panic), otherwise the data is cut short", res.Name(), core.Src(p.Fset, arg), core.Src(p.Fset, se.Low), base, core.Src(p.Fset, b))
+							}
+						}
+						return true
+					})
+					return true
+				})
+			}
+		}
+	}
+	rc.OK("module/relative-indexes", token.NoPos, "%d Index calls on a tail x[lo:] of a slice or string in the library", n)
+}
+
+func nonzeroTerms(l core.Linear) []string {
+	var out []string
+	for k, v := range l.Terms {
+		if v != 0 {
+			out = append(out, k)
+		}
+	}
+	return out
+}
